@@ -1,7 +1,7 @@
 """Which units decide which property, and what is claimed (feeds MANIFEST.json)."""
 from catalog import P, NOT_APPLICABLE, PROPERTY_UNITS
 
-P("C25", [("K1", r"^k1_(c_db|c_bv|l_shift)"), ("K2", None)],
+P("C25", [("K1", r"^k1_(c_db|c_bv|l_shift)"), ("K2", None), ("K2S", None)],
   "proof",
   "Kani function contracts on the real DebruijnIndex/BoundVar shift functions, proved over the full u32/usize domains "
   "(loop-free, so complete), and the shift laws of C25 proved as lemmas over those contracts (stub_verified). "
@@ -44,11 +44,12 @@ P("C19", [("K13", None), ("K13O", None)],
   "Assumed: the forest handed to set_priorities is a DAG with edges from less to more special impls (the disjoint/specializes solver queries are not verified); petgraph and indexmap as compiled by Kani.",
   "contract-based verification with Kani: harness contracts + contract stub (kani::stub) for the callee, graphs enumerated concretely")
 
-P("C05", [("V10", None), ("V3", None)],
-  "proof",
+P("C05", [("V10", None), ("V3", None), ("K11", r"^k11_stack")],
+  "model_checking",
   "Partial (function-level links): Verus proves on the verbatim text that exactly the goals `T: AutoTrait`, `T: #[coinductive] Trait`, `WellFormed(T: Trait)` and universal "
   "quantifications of those are treated coinductively (every other goal kind is inductive), that coinductive goals start the fixed-point iteration at the top "
-  "(Unique, trivially true, over the goal's own binders) and inductive ones at NoSolution, and that iteration stops only when the answer repeats or is ambiguous. Unbounded.",
+  "(Unique, trivially true, over the goal's own binders) and inductive ones at NoSolution, and that iteration stops only when the answer repeats or is ambiguous (all Verus, unbounded); "
+  "Kani shows the cycle check rejects a cycle exactly when it mixes inductive and coinductive stack entries (BOUNDED: <= 4/6 entries).",
   "Not reached: push_auto_trait_impls / constituent types (iterator+closure code), delayed subgoals in the SLG engine, cache rollback. Assumed: finite goals, trait flags abstract.",
   "contract-based deductive verification: Verus on mechanically extracted function text")
 
@@ -74,6 +75,46 @@ P("C13", [("V1", None), ("V2", None), ("K1", r"^k3_l_priority_meet")],
   "and commutativity/associativity/idempotence of the ClausePriority meet (Kani, full domain). Unbounded / complete.",
   "Not reached: iteration order of impls, the environment hash set, arrival order of answers in merge_into_guidance. Assumed: two trivially-true solutions of one query are equal.",
   "contract-based deductive verification: Verus lemmas over verified contracts + Kani full-domain harness")
+
+P("C26", [("K4", None), ("V0", None)],
+  "model_checking",
+  "Kani proves for every TyKind / LifetimeData / ConstValue / GenericArgData / WhereClause variant, with ARBITRARY 16-bit cached flags on every child type, that the real compute_flags "
+  "equals the occurrence-flag table (union of the local flag, the children's flags and the lifetime/const flags), and that intern_ty stores it; a Verus lemma lifts this one-level "
+  "equation to whole types by structural induction. Complete in the flag domain; BOUNDED only in argument-list length (<= 2 arguments, <= 1 dyn bound).",
+  "Assumed: every TyData comes from intern_ty; rigid AssociatedType/OpaqueType count as applications; STILL_FURTHER_SPECIALIZABLE masked out.",
+  "contract-based verification: Kani harness contracts per enum variant (symbolic child flags) + Verus induction lemma")
+
+P("C16", [("K8", None), ("K10", None), ("K1", r"^k1_(c_bv_shifted_in_from|c_db_shifted_in_from|l_universe)")],
+  "model_checking",
+  "Partial: Kani on the real code proves that unknowns are numbered by first occurrence with repeated / unified unknowns sharing an index and max_universe tracking them "
+  "(Canonicalizer::add + the unbound leaf of fold_inference_ty over the real ena table), and that universe compression is order preserving, injective, invertible below the "
+  "number of universes and maps out-of-range universes strictly above (UniverseMap, universe values fully symbolic). BOUNDED in the number of variables/universes.",
+  "Not reached: the 'exactly when' over whole values and the instantiate/canonicalize round trip (generic folder); inversion. Assumed: ena, binary_search, Vec::insert as compiled by Kani.",
+  "contract-based verification with Kani harness contracts compiled inside chalk-solve (tracing replaced by a no-op stand-in), bounded")
+
+P("C09", [("K11", None), ("V3", None)],
+  "model_checking",
+  "Partial (one invariant + the stopping rule): Kani proves on the real recursive-solver Stack that its depth can never exceed the configured overflow_depth (symbolic): a push below "
+  "the limit adds exactly one entry, a push at the limit aborts without adding one; Verus proves reached_fixed_point stops exactly when the answer repeats or is ambiguous. "
+  "BOUNDED in the number of entries (4/6). Termination proper is not claimed: neither tool proves it here.",
+  "Not reached: termination of the SLG engine (subgoal abstraction, truncation), of Fulfill::fulfill and of the fixed-point loop itself; 'without panicking' is not claimed (the overflow push panics by design).",
+  "contract-based verification with Kani harness contracts (bounded) + Verus on extracted text")
+
+P("C18", [("K6", None)],
+  "model_checking",
+  "Kani runs the real could_match (MatchZipper over the real Zip machinery) on every pair of head constructors with leaf children and checks it against an oracle written from the "
+  "definition of first-order unifiability: whenever the filter answers false the two types have no common instance; the filter is also symmetric. BOUNDED in term shape "
+  "(depth 2, <= 2 children); the lifting to all types (child-wise conservative => conservative) is an argument, not a machine-checked proof.",
+  "Assumed: callers (impls_for_trait, build_table, solve_from_clauses) only use could_match to retain clauses. DomainGoal-level zipping (Zip derive) is exercised only through types.",
+  "contract-based verification with Kani: harness contract against an independent unifiability oracle, bounded shapes")
+
+P("C08", [("V11", None)],
+  "proof",
+  "Partial: Verus proves on the verbatim text of add_sized_program_clauses and add_copy_program_clauses, for EVERY TyKind variant and variable kind, that exactly the clause dictated by the "
+  "language table is generated (Sized: never for str/slices/extern types, nothing built in for dyn/alias/placeholder/opaque, last field for ADTs, last element for tuples, the fact for "
+  "everything else, flounder on a general unknown; Copy: all elements for tuples, the element for arrays, the captures for closures, the fact for fn items/pointers, nothing built in otherwise). Unbounded.",
+  "Not reached: Clone/Tuple/FnPtr, the outer dispatcher (its match sits in a closure), the helpers' bodies (last_field_of_struct, needs_impl_for_tys), how explicit impls combine (solver).",
+  "contract-based deductive verification: Verus on mechanically extracted function text with a ghost clause log")
 
 # ---- not (yet) claimed
 NOT_APPLICABLE['C02'] = "completeness of proof search within size limits is a whole-search statement; the mechanisms named in the anchors (on_no_strands_left, clear_strands_after_cycle, solve_new_subgoal, Fulfill::fulfill) log, use FxHashMap tables and custom Index impls (DESIGN P5/P6/P10) and none has a per-function contract implying 'never Ambiguous'"
